@@ -163,6 +163,7 @@ static void mf_case(vf_rng *r)
 
 static void vf_case(uint64_t c, vf_rng *r)
 {
+    if (c == 0) { bfuzz_macro_hygiene("/" W); }
     if (c % 8 == 7) { mf_case(r); mf_extreme(r, "/" W, 48); }
     else { pid_case(c, r); }
 }
